@@ -3,7 +3,7 @@ SRC = ['repo:src/String.cpp', 'repo:src/Memory.cpp']
 UNITS = [dict(
     name='xml', harness='harness/c16_xml.cpp', sources=SRC, native_sources=SRC + ['repo:src/Error.cpp', 'repo:src/File.cpp', 'repo:src/Directory.cpp'],
     defines={'quick': {'VF_LEN': 5, 'VF_ELEN': 2}, 'thorough': {'VF_LEN': 7, 'VF_ELEN': 4}},
-    entries=['parse_safety', 'comments', 'escape_roundtrip', 'unescape_safety', 'roundtrip', 'copies'],
+    entries=['parse_safety', 'error_position', 'comments', 'escape_roundtrip', 'unescape_safety', 'roundtrip', 'copies'],
     opts={'all': {'unwind': 64}},
     split={'quick': 12, 'thorough': 16},
     budget={'quick': 280, 'thorough': 2600},
